@@ -6,6 +6,7 @@ package txmgr
 
 //@ func canonicalOutPoint
 //@   props C09 C01 C19
+//@   inline
 //@   requires txHash != nil
 //@   ensures len(result) == 36 && fresh(result)
 //@   ensures bytesEq(result, 0, txHash, 0, 32)
@@ -13,6 +14,7 @@ package txmgr
 
 //@ func canonicalUnspentKey
 //@   props C01 C09 C19
+//@   inline
 //@   requires txHash != nil
 //@   requires len(walletId) == 42
 //@   ensures len(result) == 78 && fresh(result)
@@ -29,6 +31,7 @@ package txmgr
 
 //@ func keyCredit
 //@   props C01 C09 C19
+//@   inline
 //@   requires txHash != nil && block != nil
 //@   ensures len(result) == 76 && fresh(result)
 //@   ensures bytesEq(result, 0, txHash, 0, 32) && be64(result, 32) == block.Height
@@ -36,6 +39,7 @@ package txmgr
 
 //@ func keyDebit
 //@   props C01 C09 C19
+//@   inline
 //@   requires txHash != nil && block != nil
 //@   ensures len(result) == 76 && fresh(result)
 //@   ensures bytesEq(result, 0, txHash, 0, 32) && be64(result, 32) == block.Height
@@ -43,6 +47,7 @@ package txmgr
 
 //@ func keyTxRecord
 //@   props C01 C09 C19
+//@   inline
 //@   requires txHash != nil && block != nil
 //@   ensures len(result) == 72 && fresh(result)
 //@   ensures bytesEq(result, 0, txHash, 0, 32) && be64(result, 32) == block.Height
@@ -65,6 +70,7 @@ package txmgr
 
 //@ func valueUnspent
 //@   props C01 C19
+//@   inline
 //@   requires block != nil
 //@   ensures len(result) == 40 && fresh(result)
 //@   ensures be64(result, 0) == block.Height && bytesEq(result, 8, block.Hash, 0, 32)
@@ -132,11 +138,13 @@ package txmgr
 
 //@ func valueAddressRecord
 //@   props C12 C19
+//@   inline
 //@   requires rec != nil
 //@   ensures len(result) == 8 && fresh(result) && be64(result, 0) == rec.blockHeight
 
 //@ func keyGameHistory
 //@   props C10 C19
+//@   inline
 //@   requires history != nil && len(history.walletId) == 42
 //@   ensures len(result) == 88 && fresh(result)
 //@   ensures bytesEq(result, 0, history.walletId, 0, 42)
@@ -145,6 +153,7 @@ package txmgr
 
 //@ func keyUnminedGameHistory
 //@   props C10 C19
+//@   inline
 //@   requires history != nil && len(history.walletId) == 42
 //@   ensures len(result) == 80 && fresh(result)
 //@   ensures bytesEq(result, 0, history.walletId, 0, 42)
@@ -164,6 +173,7 @@ package txmgr
 
 //@ func keyBlockRecord
 //@   props C01 C19
+//@   inline
 //@   ensures len(result) == 8 && fresh(result) && be64(result, 0) == height
 
 //@ func readTxRecordKey
@@ -186,3 +196,98 @@ package txmgr
 //@   ensures err == nil ==> ws.SyncedHeight == be64(v, 0) && ws.WalletID == strOf(k)
 //@   ensures err == nil && len(v) > 8 ==> ws.Flags == v[8]
 //@   ensures err == nil && len(v) == 8 ==> ws.Flags == old(ws.Flags)
+
+// ---------------------------------------------------------------------------------------------
+// Bucket-level helpers (abstract bucket model: see masswallet/db/zz_contracts_verif.go).
+
+//@ func existsRawUnspent
+//@   props C01 C09 C19
+//@   requires ns != nil
+//@   ensures len(k) < 78 ==> err != nil
+//@   ensures err != nil ==> credKey == nil
+//@   ensures err == nil ==> (credKey != nil) == bhas(ns, k)
+//@   ensures credKey != nil ==> len(credKey) == 76 && fresh(credKey) && bytesEq(credKey, 0, k, 42, 32) && bytesEq(credKey, 72, k, 74, 4)
+//@   ensures credKey != nil && len(bval(ns, k)) >= 40 ==> bytesEq(credKey, 32, bval(ns, k), 0, 40)
+
+//@ func existsUnspent
+//@   props C01 C09 C19
+//@   requires ns != nil && outPoint != nil
+//@   ensures len(walletId) != 42 ==> err != nil
+//@   ensures err != nil ==> k == nil && credKey == nil
+//@   ensures err == nil ==> len(k) == 78 && fresh(k) && bytesEq(k, 0, walletId, 0, 42) && bytesEq(k, 42, outPoint.Hash, 0, 32) && be32(k, 74) == outPoint.Index
+//@   ensures err == nil ==> (credKey != nil) == bhas(ns, k)
+//@   ensures credKey != nil ==> len(credKey) == 76 && fresh(credKey) && bytesEq(credKey, 0, outPoint.Hash, 0, 32) && be32(credKey, 72) == outPoint.Index
+//@   ensures credKey != nil && len(bval(ns, k)) >= 40 ==> bytesEq(credKey, 32, bval(ns, k), 0, 40)
+
+//@ func deleteRawUnspent
+//@   props C01 C09 C18 C19
+//@   requires ns != nil
+//@   modifies bmap(ns)
+//@   ensures err == nil && len(k) > 0 ==> !bhas(ns, k) && bsameExcept(ns, k)
+//@   ensures err != nil || len(k) == 0 ==> bsame(ns)
+
+//@ func putUnspent
+//@   props C01 C18 C19
+//@   requires ns != nil && outPoint != nil && block != nil
+//@   modifies bmap(ns)
+//@   ensures len(walletId) != 42 ==> err != nil
+//@   ensures err != nil ==> bsame(ns)
+//@   ensures err == nil ==> bhas(ns, canonicalUnspentKey(walletId, &outPoint.Hash, outPoint.Index))
+//@   ensures err == nil ==> bval(ns, canonicalUnspentKey(walletId, &outPoint.Hash, outPoint.Index)) == strOf(valueUnspent(block))
+//@   ensures err == nil ==> bsameExcept(ns, canonicalUnspentKey(walletId, &outPoint.Hash, outPoint.Index))
+
+//@ func putRawCredit
+//@   props C01 C09 C18 C19
+//@   requires ns != nil
+//@   modifies bmap(ns)
+//@   ensures err == nil ==> len(k) > 0 && len(v) > 0 && bhas(ns, k) && bval(ns, k) == strOf(v) && bsameExcept(ns, k)
+//@   ensures err != nil ==> bsame(ns)
+
+//@ func deleteRawCredit
+//@   props C01 C09 C18 C19
+//@   requires ns != nil
+//@   modifies bmap(ns)
+//@   ensures err == nil && len(k) > 0 ==> !bhas(ns, k) && bsameExcept(ns, k)
+//@   ensures err != nil || len(k) == 0 ==> bsame(ns)
+
+//@ func existsCredit
+//@   props C01 C09 C19
+//@   requires ns != nil && txHash != nil && block != nil
+//@   ensures err != nil ==> k == nil && v == nil
+//@   ensures err == nil ==> len(k) == 76 && fresh(k) && bytesEq(k, 0, txHash, 0, 32) && be64(k, 32) == block.Height && bytesEq(k, 40, block.Hash, 0, 32) && be32(k, 72) == index
+//@   ensures err == nil ==> (v != nil) == bhas(ns, k)
+//@   ensures v != nil ==> len(v) > 0 && strOf(v) == bval(ns, k)
+
+//@ func existsRawCredit
+//@   props C01 C09 C19
+//@   requires ns != nil
+//@   ensures err != nil ==> v == nil
+//@   ensures err == nil && len(k) > 0 ==> (v != nil) == bhas(ns, k)
+//@   ensures v != nil ==> len(v) > 0 && strOf(v) == bval(ns, k)
+
+//@ func putDebit
+//@   props C01 C18 C19
+//@   requires ns != nil && txHash != nil && block != nil && validAmt(amount)
+//@   modifies bmap(ns)
+//@   ensures err != nil ==> bsame(ns)
+//@   ensures err == nil ==> bhas(ns, keyDebit(txHash, index, block)) && bsameExcept(ns, keyDebit(txHash, index, block))
+//@   ensures err == nil ==> len(bval(ns, keyDebit(txHash, index, block))) == 84 && mathint(be64(bval(ns, keyDebit(txHash, index, block)), 0)) == amt(amount)
+//@   ensures err == nil && len(credKey) >= 76 ==> bytesEq(bval(ns, keyDebit(txHash, index, block)), 8, credKey, 0, 76)
+
+//@ func existsDebit
+//@   props C01 C19
+//@   requires ns != nil && txHash != nil && block != nil
+//@   ensures err != nil ==> k == nil && credKey == nil
+//@   ensures err == nil && k != nil ==> len(k) == 76 && bytesEq(k, 0, txHash, 0, 32) && be64(k, 32) == block.Height && bytesEq(k, 40, block.Hash, 0, 32) && be32(k, 72) == index
+//@   ensures err == nil ==> (k != nil) == bhas(ns, keyDebit(txHash, index, block))
+//@   ensures err == nil && k != nil ==> len(credKey) == 76 && bytesEq(credKey, 0, bval(ns, keyDebit(txHash, index, block)), 8, 76)
+//@   ensures err == nil && k == nil ==> credKey == nil
+
+//@ func putMinedBalance
+//@   props C01 C18 C19
+//@   requires ns != nil && validAmt(amt)
+//@   modifies bmap(ns)
+//@   ensures len(walletId) != 42 ==> err != nil
+//@   ensures err != nil ==> bsame(ns)
+//@   ensures err == nil ==> has(bmap(ns), walletId) && len(bmap(ns)[walletId]) == 8 && mathint(be64(bmap(ns)[walletId], 0)) == amt(amt)
+//@   ensures err == nil ==> forall s string :: s != walletId ==> has(bmap(ns), s) == old(has(bmap(ns), s)) && bmap(ns)[s] == old(bmap(ns)[s])
